@@ -12,3 +12,8 @@ pub uninterp spec fn uni_alpha(c: char) -> bool;
 pub fn vx_char_is_alphanumeric(c: char) -> (r: bool) ensures r == uni_alnum(c) { unimplemented!() }
 #[verifier::external_body]
 pub fn vx_char_is_alphabetic(c: char) -> (r: bool) ensures r == uni_alpha(c) { unimplemented!() }
+#[verifier::external_body]
+pub fn vx_u8_is_ascii_digit(c: u8) -> (r: bool) ensures r == ascii_digit(c) { unimplemented!() }
+pub uninterp spec fn uni_numeric(c: char) -> bool;
+#[verifier::external_body]
+pub fn vx_char_is_numeric(c: char) -> (r: bool) ensures r == uni_numeric(c) { unimplemented!() }
